@@ -17,9 +17,12 @@ SIO_TRUSTED = [
 ]
 
 SIO_RULE = ("histories on one sio.Crew: a fixed corpus first (witnesses of D11, D13, D14, D41, D42, routing as in doc/by-example.md, "
-            "suppression, delete/re-create, the captain named together with a machine it changes), then generated histories: crews of "
+            "suppression, delete/re-create, the captain named together with a machine it changes, updates that name the service "
+            "machines, a burst of 1300 emissions, a specification replaced by a source that is only a name and back), then generated histories: crews of "
             "0-6 recorder machines (ids a b c d, the empty id, '*', unknown ids; modes forward / reverse / mute / idle / deaf; machines "
-            "without specification), messages whose 'then' lists are emitted and fed back (trees of depth <= 3), every routing target of "
+            "without specification; with probability 0.065 a specification source that is only a name, {name: N0 | N1}, which "
+            "sio.ResolveSpecSource resolves to nothing: the machine loses its specification, the report and the store carry the source "
+            "as given), messages whose 'then' lists are emitted and fed back (trees of depth <= 3), every routing target of "
             "the property (absent, id, '*', lists with unknown / repeated / non-string members, other JSON types, timers, captain, the "
             "captain together with machines), messages that are no objects, decoy operations not addressed to the captain, timer "
             "requests with and without the timers target; captain operations create / replace state / replace specification / both / "
@@ -51,12 +54,14 @@ PROPS = {
     "C15": dict(
         level="proof", trusted=SIO_TRUSTED,
         rule=SIO_RULE + "C15 compares the reports (which machines, deleted, specification source, bindings), machines, store and booted "
-             "crew; the oracle c15_ok requires after every message step store == Crew.Machines (ids, specification sources, nodes, "
+             "crew; the oracle c15_ok requires after every message step store == Crew.Machines (ids, specification sources - a stored "
+             "source that resolves to nothing stands for a machine without specification, and no live machine carries such a source -, nodes, "
              "bindings; exact), the booted crew's machines == Crew.Machines, and the booted crew's Emitted at every later step and its "
              "machines at the end to equal the original's (exactly for single-recipient chains, as multisets of batches / logs "
              "otherwise: the order in which machines see a message within a round is unspecified). distinct = distinct histories; "
              "non-trivial = a machine that existed was deleted or re-specified by an operation and a second crew was booted.",
-        assumptions=["operations never name the service machines; specification sources compile",
+        assumptions=["operations never name the service machines; specification sources compile (a source with neither inline "
+                     "nor url resolves to nothing without error: modelled, [resolves])",
                      "a message to the captain that is no operation is outside the property's histories (the captain keeps it and "
                      "stays inert; this is not reported, so a restart heals it): the restart comparison is skipped from there on",
                      "restart equivalence is proved for one schedule (order oracle) shared by both crews; across schedules it is "
